@@ -52,8 +52,11 @@ impl Task {
 pub async fn pump(tasks: &mut [&mut Task], mut until: impl FnMut() -> bool, max_wall: Duration) -> bool {
     let sleep = tokio::time::sleep(max_wall);
     tokio::pin!(sleep);
-    let mut tick = tokio::time::interval(Duration::from_millis(4));
-    tick.set_missed_tick_behavior(tokio::time::MissedTickBehavior::Delay);
+    // harness-side conditions (a datagram at a harness socket, a frame from a helper task) are re-evaluated on a
+    // tick: quick at first (everything is on loopback and in this thread), then coarse so that long waits cost no CPU
+    let mut n = 0u32;
+    let tick = tokio::time::sleep(Duration::from_millis(1));
+    tokio::pin!(tick);
     std::future::poll_fn(|cx| {
         loop {
             for t in tasks.iter_mut() {
@@ -65,8 +68,13 @@ pub async fn pump(tasks: &mut [&mut Task], mut until: impl FnMut() -> bool, max_
             if sleep.as_mut().poll(cx).is_ready() {
                 return Poll::Ready(false);
             }
-            match tick.poll_tick(cx) {
-                Poll::Ready(_) => continue,
+            match tick.as_mut().poll(cx) {
+                Poll::Ready(_) => {
+                    n += 1;
+                    let next = if n < 8 { 1 } else { 25 };
+                    tick.as_mut().reset(tokio::time::Instant::now() + Duration::from_millis(next));
+                    continue;
+                }
                 Poll::Pending => return Poll::Pending,
             }
         }
@@ -88,3 +96,22 @@ pub async fn pump_rounds(tasks: &mut [&mut Task], rounds: u32) {
         tokio::task::yield_now().await;
     }
 }
+
+/// Run one async API call of the connection as a hand-polled task so that a panic inside is data.
+pub async fn guarded<T: Send + 'static>(f: impl std::future::Future<Output = T> + Send + 'static) -> Result<T, String> {
+    let slot: std::sync::Arc<std::sync::Mutex<Option<T>>> = std::sync::Arc::new(std::sync::Mutex::new(None));
+    let s2 = slot.clone();
+    let mut t = Task::new("pc-call", async move {
+        let v = f.await;
+        *s2.lock().unwrap() = Some(v);
+    });
+    let done = pump(&mut [&mut t], || slot.lock().unwrap().is_some(), Duration::from_secs(20)).await;
+    if let Some(p) = t.panicked {
+        return Err(format!("panic: {p}"));
+    }
+    if !done {
+        return Err("hang: the call did not return within 20 s".into());
+    }
+    Ok(slot.lock().unwrap().take().unwrap())
+}
+
